@@ -123,8 +123,10 @@ def rule_done(ctx):
         blk = p.parent.get(n)
         body = getattr(blk, "body", [])
         if n in body:
-            later_for = [s for s in body[body.index(n):] if isinstance(s, ast.For) and isinstance(s.iter, ast.Name) and s.iter.id == done_var]
-            earlier_for = [s for s in body[:body.index(n)] if isinstance(s, ast.For) and isinstance(s.iter, ast.Name) and s.iter.id == done_var]
+            def uses_done(s):
+                return any(isinstance(x, (ast.For, ast.comprehension)) and isinstance(x.iter, ast.Name) and x.iter.id == done_var for x in ast.walk(s))
+            later_for = [s for s in body[body.index(n) + 1:] if uses_done(s)]
+            earlier_for = [s for s in body[:body.index(n)] if uses_done(s)]
             if later_for and not earlier_for and not all_guards(p, n, disp)[1:]:
                 ok = True
     ctx.ob("C14.DONE", disp, "finished tasks are removed from extra_workers before their results are handled, unconditionally", ok,
